@@ -102,6 +102,36 @@ def run(ck, prog, ctx):
             tmpl = new_t
         if not tmpl:
             ck.undecided("TABLE", "display/template", "format template of Display for HpoTermId not recognised (soft idiom)", where=disp.where())
+            # a hand-written decimal rendering (`digit = n % 10; n /= 10` over the slots of a fixed byte buffer): the buffer has a slot for every
+            # digit the widest id can have (u32::MAX has 10), or the loop is not bounded by the slots at all.  Seven slots are right for the
+            # shipped id space only: a larger id loses its leading digits and renders as the text of ANOTHER id.
+            from engines import private_scope as _ps20
+            from prov import Prov as _Prov20
+            pv20 = _Prov20(prog, inline=False)
+            for db_ in _ps20(prog, disp):
+                for h_, bl_ in sorted(db_.natural_loops().items()):
+                    rems = [st_ for bi_ in bl_ for st_ in db_.blocks[bi_].stmts if st_.k == "assign" and st_.rv["k"] == "bin" and st_.rv["op"].startswith("Rem") and st_.rv["r"].kind == "const" and st_.rv["r"].int_value() == 10]
+                    divs = [st_ for bi_ in bl_ for st_ in db_.blocks[bi_].stmts if st_.k == "assign" and st_.rv["k"] == "bin" and st_.rv["op"].startswith("Div") and st_.rv["r"].kind == "const" and st_.rv["r"].int_value() == 10]
+                    if not rems or not divs:
+                        continue
+                    num_ty = db_.locals[rems[0].rv["l"].place.local]["s"] if rems[0].rv["l"].place is not None and rems[0].rv["l"].place.is_local() else "?"
+                    need = {"u8": 3, "u16": 5, "u32": 10, "u64": 20, "usize": 20}.get(num_ty)
+                    # the slots: a fixed array among the parameters / locals of the function that the loop's iterator is drawn from, minus the
+                    # constant start of the RangeFrom it is sliced with
+                    arrs = sorted({int(m_.group(1)) for l_ in db_.locals for m_ in [re.search(r"\[u8; (\d+)\]", l_["s"])] if m_})
+                    parrs = sorted({int(m_.group(1)) for l_ in db_.locals[1:db_.nargs + 1] for m_ in [re.search(r"\[u8; (\d+)\]", l_["s"])] if m_})
+                    if len(parrs) == 1:
+                        arrs = parrs  # the buffer handed in by the caller (other arrays of the body are templates / constants)
+                    starts = [o_.int_value() for bi_ in sorted(db_.reach) for st_ in db_.blocks[bi_].stmts if st_.k == "assign" and st_.rv["k"] == "agg" and re.search(r"::RangeFrom$", st_.rv.get("adt", "")) for o_ in st_.rv["ops"][:1] if o_.kind == "const" and o_.int_value() is not None]
+                    # a loop that also ends on the value (`while n != 0`, `if n == 0 { break }`) is not bounded by the slots alone
+                    value_exit = any(db_.blocks[bi_].term.k == "switch" and any(a_[0] == "op" and str(a_[1]).startswith(("Div", "Rem")) for a_ in pv20.of_operand(db_, db_.blocks[bi_].term.discr)) for bi_ in bl_)
+                    key_ = "display/digit-slots/" + db_.short
+                    if need is None or len(arrs) != 1 or len(starts) > 1:
+                        ck.undecided("TABLE", key_, "%s renders the number digit by digit; the number of slots is not read (arrays %s, slice starts %s, number type %s)" % (db_.short, arrs, starts, num_ty), where=db_.where(rems[0].line))
+                    else:
+                        slots = arrs[0] - (starts[0] if starts else 0)
+                        ck.ob("TABLE", key_, slots >= need, "%s renders a %s digit by digit into %d slot(s) of a [u8; %d] buffer (the widest %s has %d digits)%s" % (db_.short, num_ty, slots, arrs[0], num_ty, need,
+                              "" if slots >= need else ": an id with more than %d digits loses its leading digits and is rendered as the text of another id" % slots), where=db_.where(rems[0].line))
         elif tmpl[0][0] != "lit" and len(fargs) > 1:
             ck.undecided("TABLE", "display/template", "Display for HpoTermId renders its prefix through a formatter argument that is not a constant string", where=disp.where())
         else:
